@@ -169,7 +169,9 @@ fn verify(qr: &fast_qr::QRCode, bc: &BuildCase, what: &str, obs: &mut Obs) -> Re
     }
     // the mode indicator physically present equals the reported mode (only when the data parse at all)
     if let Some(p) = &own {
-        if p.segments.len() == 1 {
+        // the FIRST mode indicator of the data stream is what a reader sees as the symbol's mode; a symbol that starts
+        // with another indicator (also one that goes on with further segments) does not carry the reported mode
+        if !p.segments.is_empty() {
             ensure!(
                 p.segments[0].mode == r_mode,
                 "mode_field",
